@@ -107,3 +107,7 @@ Definition all_dwarf_cfgs : list (bool * Z * Z) :=
   flat_map (fun le => flat_map (fun f => map (fun a => (le, f, a)) [4; 8]) [32; 64]) [true; false].
 Definition all_elf_cfgs : list (bool * Z) :=
   flat_map (fun le => map (fun c => (le, c)) [32; 64]) [true; false].
+
+(* DWARF 7.4: the initial length occupies 4 bytes in the 32-bit format and 12 (0xffffffff + 8) in the 64-bit one *)
+Definition spec_initlen_field_size (fmt : Z) : Z := if Z.eqb fmt 32 then 4 else 12.
+
